@@ -23,7 +23,8 @@ Proof. exact indexes_one_to_one. Qed.
 Print Assumptions C13_indexes.
 
 (* 1b. genesis export / import (chain restart from exported state): ExportGenesis exports every oracle record
-       (read from the source on every run), and then export + import gives back exactly the registry — records
+       (C13_export_covers_all_oracles is a TRANSLATOR TIE: reflexivity on the constant generated from the source on
+       every run; it stops compiling when the source exports a subset), and then export + import gives back exactly the registry — records
        and both indexes — and touches nothing of the stake *)
 Theorem C13_export_covers_all_oracles : export_all_oracles = true.
 Proof. reflexivity. Qed.
@@ -144,7 +145,7 @@ Theorem C13_delegate_token_accepted_by_staking : forall V dl a v tok,
 Proof. exact delegate_token_accepted_by_staking. Qed.
 Print Assumptions C13_delegate_token_accepted_by_staking.
 
-Theorem C13_validator_slash_life_cycle : unbond_needs_entry = false ->
+Theorem C13_validator_slash_life_cycle_on_tree :
   let s := run w_init w_F in
   let s' := exec s (Unbond 0) in
   vtok s 0 = FX 9595 /\ vshr s 0 = FX 10100 * dec_one /\
@@ -153,8 +154,8 @@ Theorem C13_validator_slash_life_cycle : unbond_needs_entry = false ->
   bal_d s 0 = FX 9500 + 7 /\
   is_ok (step s (Unbond 0)) = true /\ bal_o s' 0 - bal_o s 0 = FX 9500 + 7 /\ recs s' 0 = None /\
   step s' (Unbond 0) = Err e_notfound.
-Proof. exact validator_slash_life_cycle_if_fixed. Qed.
-Print Assumptions C13_validator_slash_life_cycle.
+Proof. exact validator_slash_life_cycle_on_tree. Qed.
+Print Assumptions C13_validator_slash_life_cycle_on_tree.
 
 (* 3b. staking-side events (validator slashed for a current or a past infraction, jailed, unbonding, unbonded):
        the real delegation moves, the crosschain records do not; the recorded stake changes in AddDelegate only;
@@ -172,20 +173,45 @@ Theorem C13_recorded_stake_moves_only_on_add_delegate : forall s o s' a r r', re
 Proof. exact recorded_stake_moves_only_on_add_delegate. Qed.
 Print Assumptions C13_recorded_stake_moves_only_on_add_delegate.
 
-Theorem C13_unbond_refused_when_penalty_exceeds_balance : forall s a r, recs s a = Some r ->
+Theorem C13_unbond_refused_when_penalty_exceeds_balance : forall ne s a r, recs s a = Some r ->
   0 < slash_amount r (p_fraction (prm s)) -> bal_d s a < slash_amount r (p_fraction (prm s)) ->
-  forall s', step s (Unbond a) <> Ok s'.
+  forall s', unbond_gen ne false s a <> Ok s'.
 Proof. exact unbond_refused_when_penalty_exceeds_balance. Qed.
 Print Assumptions C13_unbond_refused_when_penalty_exceeds_balance.
 
+(* the witness is evaluated on the explicit refusing variant [run_with false false] (entry test as fixed, penalty rule
+   as before the C13-3 patch), whatever the checked tree says *)
 Theorem C13_penalty_exceeds_remaining_refuted : exists ops a r,
-  let s := run w_init1 ops in
+  let s := run_with false false w_init1 ops in
   recs s a = Some r /\ ~ In a (proposal s) /\ o_online r = false /\ o_slash r = 1 /\
   (forall u, In u (ubds s) -> u_orc u <> a) /\ deleg s a (o_val r) = 0 /\
   o_amount r = FX 10000 /\ slash_amount r (p_fraction (prm s)) = FX 10000 /\ bal_d s a = FX 9500 + 9 /\
-  step s (Unbond a) = Err e_invalid.
+  step_with false false s (Unbond a) = Err e_invalid.
 Proof. exact penalty_exceeds_remaining_refuted. Qed.
 Print Assumptions C13_penalty_exceeds_remaining_refuted.
+
+(* the capped variant of the penalty rule (the C13-3 patch): the oracle receives max(0, matured - penalty), exactly
+   min(penalty, matured) is burned, the delegate address ends empty, the records are deleted; and the same life cycle
+   computed with it *)
+Theorem C13_unbond_capped_pays : forall ne s a r, recs s a = Some r -> ~ In a (proposal s) -> o_online r = false ->
+  has_ubd a (o_val r) (ubds s) = ne -> 0 <= bal_d s a ->
+  exists s', unbond_gen ne true s a = Ok s' /\
+    bal_o s' a = bal_o s a + Z.max 0 (bal_d s a - slash_amount r (p_fraction (prm s))) /\
+    burned s' = burned s + Z.min (slash_amount r (p_fraction (prm s))) (bal_d s a) /\
+    bal_d s' a = 0 /\ recs s' a = None /\ by_bridger s' (o_bridger r) = None /\ by_ext s' (o_ext r) = None /\
+    (forall ne' cap' s'', unbond_gen ne' cap' s' a <> Ok s'').
+Proof. exact unbond_capped_pays. Qed.
+Print Assumptions C13_unbond_capped_pays.
+
+Theorem C13_penalty_capped_life_cycle :
+  let s := run_with false true w_init1 w_J in
+  let s' := exec_with false true s (Unbond 3) in
+  is_ok (step_with false true s (Unbond 3)) = true /\ bal_d s 3 = FX 9500 + 9 /\
+  bal_o s' 3 = bal_o s 3 /\ burned s' = burned s + (FX 9500 + 9) /\ bal_d s' 3 = 0 /\
+  recs s' 3 = None /\ by_bridger s' 103 = None /\ by_ext s' 203 = None /\
+  step_with false true s' (Unbond 3) = Err e_notfound.
+Proof. exact penalty_capped_life_cycle. Qed.
+Print Assumptions C13_penalty_capped_life_cycle.
 
 Theorem C13_past_infraction_nonvacuous :
   let s0 := run w_init (w_setup ++ confirm_all 1 (-1) ++ [ReDelegate 3 2 4; GovSet [1; 2; 3; 4; 5; 6] [(0, 7)]]) in
@@ -210,8 +236,11 @@ Print Assumptions C13_slash_count_bounded.
 Theorem C13_penalty_charged_once : forall s o s', reg_inv s -> step s o = Ok s' ->
   burned s' = burned s \/
   exists a r, recs s a = Some r /\ o_slash r = 1 /\ o_online r = false /\
-    ((exists amt rw, o = AddDelegate a amt rw) \/ o = Unbond a) /\
-    burned s' = burned s + slash_amount r (p_fraction (prm s)) /\
+    (((exists amt rw, o = AddDelegate a amt rw) /\ burned s' = burned s + slash_amount r (p_fraction (prm s))) \/
+     (o = Unbond a /\
+      burned s' = burned s + charged unbond_penalty_capped (slash_amount r (p_fraction (prm s))) (bal_d s a) /\
+      0 <= charged unbond_penalty_capped (slash_amount r (p_fraction (prm s))) (bal_d s a)
+        <= slash_amount r (p_fraction (prm s)))) /\
     slash_amount r (p_fraction (prm s)) <= Z.max 0 (o_amount r) /\
     (recs s' a = None \/ exists r', recs s' a = Some r' /\ o_slash r' = 0 /\ o_online r' = true).
 Proof. exact penalty_charged_once. Qed.
@@ -285,87 +314,52 @@ Theorem C13_oset_request_nonvacuous :
 Proof. exact oset_request_nonvacuous. Qed.
 Print Assumptions C13_oset_request_nonvacuous.
 
-(* 6. unbonding.  [unbond_needs_entry] (gen/Gen_OracleSlash.v) is re-read from UnbondedOracle on every run:
-      true = `if _, err = GetUnbondingDelegation(...); err != nil { return nil, err }` (the tree as it is).
-      What an accepted UnbondedOracle does: pays balance - penalty once, deletes the records, a second call fails *)
-Theorem C13_unbond_pays_once : forall s a s', step s (Unbond a) = Ok s' ->
+(* 6. unbonding.  Two points of UnbondedOracle are re-read from msg_server.go on every run (gen/Gen_OracleSlash.v) and
+      are explicit parameters [ne], [cap] of the transcription [unbond_gen]; [step] uses the generated values.
+      What an accepted call does, for every variant: *)
+Theorem C13_unbond_pays_once : forall ne cap s a s', unbond_gen ne cap s a = Ok s' ->
   exists r, recs s a = Some r /\ ~ In a (proposal s) /\ o_online r = false /\
-    has_ubd a (o_val r) (ubds s) = unbond_needs_entry /\
-    bal_o s' a = bal_o s a + (bal_d s a - slash_amount r (p_fraction (prm s))) /\
-    (0 < slash_amount r (p_fraction (prm s)) -> slash_amount r (p_fraction (prm s)) <= bal_d s a) /\
-    bal_d s' a = 0 /\ burned s' = burned s + slash_amount r (p_fraction (prm s)) /\
+    has_ubd a (o_val r) (ubds s) = ne /\
+    (cap = false -> 0 < slash_amount r (p_fraction (prm s)) -> slash_amount r (p_fraction (prm s)) <= bal_d s a) /\
+    let ch := charged cap (slash_amount r (p_fraction (prm s))) (bal_d s a) in
+    bal_o s' a = bal_o s a + (bal_d s a - ch) /\ bal_d s' a = 0 /\ burned s' = burned s + ch /\
     recs s' a = None /\ by_bridger s' (o_bridger r) = None /\ by_ext s' (o_ext r) = None /\
     ubds s' = ubds s /\
-    (forall s'', unbond s' a <> Ok s'').
-Proof. exact unbond_spec. Qed.
+    (forall ne' cap' s'', unbond_gen ne' cap' s' a <> Ok s'').
+Proof. exact unbond_gen_spec. Qed.
 Print Assumptions C13_unbond_pays_once.
 
-(*    REFUTATION OF THE PRE-FIX VARIANT (finding C13-1, fixed in /repo by f3a025e): with the test the other
-      way round ([unbond_needs_entry = true], `err != nil { return nil, err }`) the call is accepted only
-      while stake is still in the unbonding queue.  The next five statements speak about that variant only;
-      on the current tree their hypothesis is false. *)
-Theorem C13_unbond_refused_without_pending_entry : unbond_needs_entry = true -> forall s a,
-  (forall u, In u (ubds s) -> u_orc u <> a) -> forall s', step s (Unbond a) <> Ok s'.
-Proof. exact unbond_refused_without_pending_entry. Qed.
-Print Assumptions C13_unbond_refused_without_pending_entry.
+(*    THE TREE AS IT IS (translator tie): the entry test reads "refuse while an unbonding entry exists" (C13-1 is
+      repaired).  On a tree with the test the other way round this and the three theorems after it stop compiling. *)
+Theorem C13_tree_unbond_rule : unbond_needs_entry = false.
+Proof. reflexivity. Qed.
+Print Assumptions C13_tree_unbond_rule.
 
-Theorem C13_unbond_refused_after_maturity : unbond_needs_entry = true ->
-  forall s t1 t2 pd s1 a, step s (EndBlock t1 t2 pd) = Ok s1 ->
-  (forall u, In u (ubds s) -> u_orc u = a -> u_time u <= t1) ->
-  (forall s2, unbond s1 a <> Ok s2) /\ bal_d s1 a = bal_d s a + matured_sum t1 (ubds s) a.
-Proof. exact unbond_refused_after_maturity. Qed.
-Print Assumptions C13_unbond_refused_after_maturity.
-
-Theorem C13_unbond_accepted_forfeits_pending_stake : unbond_needs_entry = true ->
-  forall s a s', step s (Unbond a) = Ok s' ->
-  exists u, In u (ubds s') /\ u_orc u = a /\ recs s' a = None.
-Proof. exact unbond_accepted_forfeits_pending_stake. Qed.
-Print Assumptions C13_unbond_accepted_forfeits_pending_stake.
-
-Theorem C13_unbond_after_maturity_refuted : unbond_needs_entry = true -> exists ops a r,
-  let s := run w_init ops in
-  recs s a = Some r /\ ~ In a (proposal s) /\ o_online r = false /\ o_slash r = 0 /\
-  (forall u, In u (ubds s) -> u_orc u <> a) /\
-  o_amount r = FX 10000 /\ bal_d s a = FX 10000 + 7 /\
-  step s (Unbond a) = Err e_staking.
-Proof. exact unbond_after_maturity_refuted. Qed.
-Print Assumptions C13_unbond_after_maturity_refuted.
-
-Theorem C13_unbond_before_maturity_refuted : unbond_needs_entry = true -> exists ops a,
-  let s := run w_init ops in
-  exists s1, step s (Unbond a) = Ok s1 /\
-    bal_o s1 a - bal_o s a = 7 /\ recs s1 a = None /\ burned s1 = 0 /\
-    (exists u, In u (ubds s1) /\ u_orc u = a /\ u_amt u = FX 10000) /\
-    let s2 := exec s1 (EndBlock 1814500 1814505 true) in
-    bal_d s2 a = FX 10000 /\ recs s2 a = None /\ step s2 (Unbond a) = Err e_notfound.
-Proof. exact unbond_before_maturity_refuted. Qed.
-Print Assumptions C13_unbond_before_maturity_refuted.
-
-(*    THE PROPERTY, for the tree as it reads since the C13-1 fix ([unbond_needs_entry = false], re-read from
-      UnbondedOracle on every run): after governance removal, once nothing of the oracle is left in the
-      unbonding queue, the withdrawal is accepted, pays delegate balance - penalty, burns the penalty,
-      deletes the record and both index entries, and cannot be repeated; while stake is still in the queue
-      it is refused (nothing can be forfeited any more) *)
-Theorem C13_unbond_once : unbond_needs_entry = false ->
-  forall s a r, recs s a = Some r -> ~ In a (proposal s) -> o_online r = false ->
+(*    THE PROPERTY on the checked tree, no hypothesis on the generated constants: after governance removal, once nothing
+      of the oracle is left in the unbonding queue, the withdrawal is accepted, pays delegate balance - charge, burns the
+      charge (the penalty; with the cap min(penalty, balance)), leaves the delegate address empty, deletes the record and
+      both index entries, and cannot be repeated; while stake is still in the queue it is refused *)
+Theorem C13_unbond_once_on_tree : forall s a r, recs s a = Some r -> ~ In a (proposal s) -> o_online r = false ->
   (forall u, In u (ubds s) -> u_orc u <> a) ->
-  (0 < slash_amount r (p_fraction (prm s)) -> slash_amount r (p_fraction (prm s)) <= bal_d s a) ->
+  (unbond_penalty_capped = false ->
+     0 < slash_amount r (p_fraction (prm s)) -> slash_amount r (p_fraction (prm s)) <= bal_d s a) ->
+  let ch := charged unbond_penalty_capped (slash_amount r (p_fraction (prm s))) (bal_d s a) in
   exists s', step s (Unbond a) = Ok s' /\
-    bal_o s' a = bal_o s a + (bal_d s a - slash_amount r (p_fraction (prm s))) /\
-    bal_d s' a = 0 /\ burned s' = burned s + slash_amount r (p_fraction (prm s)) /\
+    bal_o s' a = bal_o s a + (bal_d s a - ch) /\ bal_d s' a = 0 /\ burned s' = burned s + ch /\
+    0 <= ch <= slash_amount r (p_fraction (prm s)) /\
     recs s' a = None /\ by_bridger s' (o_bridger r) = None /\ by_ext s' (o_ext r) = None /\
     (forall s'', step s' (Unbond a) <> Ok s'').
-Proof. exact unbond_once_if_fixed. Qed.
-Print Assumptions C13_unbond_once.
+Proof. exact unbond_once_on_tree. Qed.
+Print Assumptions C13_unbond_once_on_tree.
 
-Theorem C13_unbond_refused_while_pending : unbond_needs_entry = false ->
-  forall s a r, recs s a = Some r -> has_ubd a (o_val r) (ubds s) = true -> forall s', step s (Unbond a) <> Ok s'.
-Proof. exact unbond_refused_while_pending_if_fixed. Qed.
-Print Assumptions C13_unbond_refused_while_pending.
+Theorem C13_unbond_refused_while_pending_on_tree : forall s a r,
+  recs s a = Some r -> has_ubd a (o_val r) (ubds s) = true -> forall s', step s (Unbond a) <> Ok s'.
+Proof. exact unbond_refused_while_pending_on_tree. Qed.
+Print Assumptions C13_unbond_refused_while_pending_on_tree.
 
-(*    the whole life cycle computed on the model: bonded 10000 FX, removed, unbonding period passes, withdraws
-      10000 FX + rewards once; a penalised oracle (80 %) gets 2000 FX, 8000 FX burned; before maturity: refused *)
-Theorem C13_unbond_life_cycle : unbond_needs_entry = false ->
+(*    the whole life cycle computed on the model of the checked tree: bonded 10000 FX, removed, unbonding period passes,
+      withdraws 10000 FX + rewards once; a penalised oracle (80 %) gets 2000 FX, 8000 FX burned; before maturity: refused *)
+Theorem C13_unbond_life_cycle_on_tree :
   (let s := run w_init w_A in
    let s' := exec s (Unbond 0) in
    is_ok (step s (Unbond 0)) = true /\ bal_o s' 0 - bal_o s 0 = FX 10000 + 7 /\ bal_d s' 0 = 0 /\
@@ -377,8 +371,47 @@ Theorem C13_unbond_life_cycle : unbond_needs_entry = false ->
    is_ok (step s (Unbond 3)) = true /\ bal_o s' 3 - bal_o s 3 = FX 2000 + 5 /\ burned s' = FX 8000 /\
    recs s' 3 = None /\ step s' (Unbond 3) = Err e_notfound) /\
   step (run w_init w_B) (Unbond 0) = Err e_staking.
-Proof. exact unbond_life_cycle_if_fixed. Qed.
-Print Assumptions C13_unbond_life_cycle.
+Proof. exact unbond_life_cycle_on_tree. Qed.
+Print Assumptions C13_unbond_life_cycle_on_tree.
+
+(*    REFUTATION OF THE PRE-FIX ENTRY TEST (finding C13-1, fixed in /repo by f3a025e), about the explicit variant
+      [unbond_gen true _] / [step_with true false]: refused whenever nothing is pending, every accepted call forfeits
+      pending stake; the two life cycles are evaluated on that variant *)
+Theorem C13_prefix_unbond_refused_without_pending_entry : forall cap s a,
+  (forall u, In u (ubds s) -> u_orc u <> a) -> forall s', unbond_gen true cap s a <> Ok s'.
+Proof. exact prefix_unbond_refused_without_pending_entry. Qed.
+Print Assumptions C13_prefix_unbond_refused_without_pending_entry.
+
+Theorem C13_prefix_unbond_refused_after_maturity : forall cap s t1 t2 pd s1 a, step s (EndBlock t1 t2 pd) = Ok s1 ->
+  (forall u, In u (ubds s) -> u_orc u = a -> u_time u <= t1) ->
+  (forall s2, unbond_gen true cap s1 a <> Ok s2) /\ bal_d s1 a = bal_d s a + matured_sum t1 (ubds s) a.
+Proof. exact prefix_unbond_refused_after_maturity. Qed.
+Print Assumptions C13_prefix_unbond_refused_after_maturity.
+
+Theorem C13_prefix_unbond_accepted_forfeits_pending_stake : forall cap s a s', unbond_gen true cap s a = Ok s' ->
+  exists u, In u (ubds s') /\ u_orc u = a /\ recs s' a = None.
+Proof. exact prefix_unbond_accepted_forfeits_pending_stake. Qed.
+Print Assumptions C13_prefix_unbond_accepted_forfeits_pending_stake.
+
+Theorem C13_prefix_unbond_after_maturity_refuted : exists ops a r,
+  let s := run_with true false w_init ops in
+  recs s a = Some r /\ ~ In a (proposal s) /\ o_online r = false /\ o_slash r = 0 /\
+  (forall u, In u (ubds s) -> u_orc u <> a) /\
+  o_amount r = FX 10000 /\ bal_d s a = FX 10000 + 7 /\
+  step_with true false s (Unbond a) = Err e_staking.
+Proof. exact prefix_unbond_after_maturity_refuted. Qed.
+Print Assumptions C13_prefix_unbond_after_maturity_refuted.
+
+Theorem C13_prefix_unbond_before_maturity_refuted : exists ops a,
+  let s := run_with true false w_init ops in
+  let s1 := exec_with true false s (Unbond a) in
+  step_with true false s (Unbond a) = Ok s1 /\
+    bal_o s1 a - bal_o s a = 7 /\ recs s1 a = None /\ burned s1 = 0 /\
+    (exists u, In u (ubds s1) /\ u_orc u = a /\ u_amt u = FX 10000) /\
+    let s2 := exec_with true false s1 (EndBlock 1814500 1814505 true) in
+    bal_d s2 a = FX 10000 /\ recs s2 a = None /\ step_with true false s2 (Unbond a) = Err e_notfound.
+Proof. exact prefix_unbond_before_maturity_refuted. Qed.
+Print Assumptions C13_prefix_unbond_before_maturity_refuted.
 
 (* 7. non-vacuity *)
 Theorem C13_nonvacuous :
